@@ -42,8 +42,11 @@ NOTES["C06"] = dict(
           "Galerkin identity for P^T(AP), and the column-map variants. The model is array-equal (emission order included) to the real sequential "
           "kernels; distributed mult, mult_T and the Galerkin product are tied by correspondence on row/inner/column layouts with empty ranks, "
           "standard and topology-aware, against the product of the global triplets."),
-    note=("Trusted: Lean kernel + standard axioms; exact arithmetic; distributed algorithm (row exchange, column renumbering) validated per input, "
-          "not proved for all layouts, at this commit."),
+    note=("Props/C06Par.lean lifts the value theorem to the distributed product for every row partition (empty blocks included): the products "
+          "generated from the on-process and off-process parts of a row against the rows a rank holds are those of the row in global numbering "
+          "(rowProducts_split), the product of a row block is the block of the product (par_rows, par_rows_indep, par_den), and for A^T B the "
+          "contributions of the ranks add up to the global sum (parT_den, parT_indep). Trusted: Lean kernel + standard axioms; exact arithmetic; "
+          "that the fetched rows of B are the owners' rows is C03's theorem, their transport is validated per input."),
     technique="Lean 4 proof (sums over association lists) on an executable model; array-level and dense-image correspondence",
 )
 
